@@ -691,6 +691,20 @@ def spec_call(self, n, env):
         arr = z3.Const("lam!%d" % ops._qcnt[0], z3.ArraySort(z(ks), z(body.s)))
         self.assume(z3.ForAll([bv], z3.Select(arr, bv) == body.t, patterns=[z3.Select(arr, bv)]))
         return V(arr, ArrS(ks, body.s))
+    if name == "mkseq":
+        # mkseq(i, n, expr): the sequence of length n whose i-th element is expr (fresh constant + definitional axiom)
+        vname = A[0].id
+        ops._qcnt[0] += 1
+        bv = z3.Int("%s!m%d" % (vname, ops._qcnt[0]))
+        nlen = self.ev(A[1], env)
+        sub = E.Env(env.locals, env.heap, env.alloc, True, env.old, env.result, env.yielded, dict(env.binders))
+        sub.binders[vname] = V(bv, INT)
+        body = self.ev(A[2], sub)
+        so = SeqS(body.s)
+        r = fresh("mkseq", so)
+        self.assume(seq_len(r) == ite(nlen.t > 0, nlen.t, z3.IntVal(0)),
+                    ops.forall([bv], seq_get(r, bv) == body.t, patterns=[seq_get(r, bv)]))
+        return V(r, so)
     if name == "is_none":
         return V(ops.is_none(self.ev(A[0], env)), BOOL)
     if name == "some":          # value inside an Opt
